@@ -22,8 +22,7 @@ def rot(n):
         [[1.0, 0.0, 0.0], [0.0, 0.28, -0.96], [0.0, 0.96, 0.28]])
 
 
-def pos_def_metrics(n):
-    """name -> (mici PositiveDefiniteMatrix, exact dense array) for dimension n in {1, 2, 3}"""
+def _base_metrics(n):
     import mici.matrices as M
 
     A = BASE3[:n, :n]
@@ -59,3 +58,18 @@ def pos_def_metrics(n):
         out["product"] = (M.DensePositiveDefiniteProductMatrix(R.copy(), M.PositiveDiagonalMatrix(np.array([1.0, 2.0, 0.5, 1.5]))),
                           R @ np.diag([1.0, 2.0, 0.5, 1.5]) @ R.T)
     return out
+
+
+def pos_def_metrics(n):
+    """name -> (mici PositiveDefiniteMatrix, exact dense array) for dimension n in {1, 2, 3}"""
+    out = _base_metrics(n)
+    # the inverse of every positive definite matrix is a positive definite matrix too (this is what
+    # the metric adapters install: DensePositiveDefiniteMatrix(cov).inv, PositiveDiagonalMatrix(var).inv)
+    for name, (mat, dense) in list(out.items()):
+        if name not in ("identity",):
+            out[name + ".inv"] = (pos_def_metrics_single(n, name).inv, np.linalg.inv(dense))
+    return out
+
+
+def pos_def_metrics_single(n, name):
+    return _base_metrics(n)[name][0]
